@@ -38,7 +38,9 @@ KEYS = ["j", "k", "l", "h", "w", "b", "$", "0", "G", "1G", "5G", "H", "M", "L", 
         # (^E first: a ^F typed at a pending "[enter to continue]" prompt selects the alternate (Farsi) keymap for later inserts)
         "o\x05foo\x1b", "O\x05bar\x1b", "i\x05x\x1b", "A\x05end\x1b", "o\x05two\nlines\x1b", "cw\x05new\x1b", "S\x1b", "3O\x05top\x1b",
         ":3d\n", ":$d\n", ":1,3d\n", ":s/o/0/g\n", ":g/foo/d\n", ":2\n", ":$\n", ":1\n", ":se hll\n", ":se nohl\n", ":%p\n", ":ec hi\n", ":u\n",
-        "/foo\n", "?bar\n", "n", "N", "\x07", "ma", "'a", "``"]
+        "/foo\n", "?bar\n", "n", "N", "\x07", "ma", "'a", "``",
+        # scrolling that pushes the cursor off its line (cursor on the first/last row, at a column beyond tabs or wide characters)
+        "L\x19", "L8|\x19", "L14|2\x19", "H\x05", "H9|\x05", "H15|3\x05", "L$\x19", "H$\x05", "12|", "20|"]
 WKEYS = ["\x17s", "\x17j", "\x17k", "\x17o", "\x17c", "\x17x"]
 
 
